@@ -320,13 +320,37 @@ def saved_files_main():
     d = tempfile.mkdtemp(prefix="hv-c18-")
     res = {"preferred_encoding": locale.getpreferredencoding(False)}
     dep = ht.HTMLDependency("d\u00e9p", "1.0", source={"href": "https://cdn.example/\u00fc"}, script={"src": "s.js"}, meta={"name": "m", "content": "caf\u00e9"})
+    # a library with a real (ASCII-named) file, copied to an ABSOLUTE library directory that is the same in every child process
+    absdir = os.path.join(tempfile.gettempdir(), "hv-c18-absolute-libdir")
+    src = os.path.join(d, "src")
+    os.makedirs(src)
+    with open(os.path.join(src, "f.js"), "w") as fh:
+        fh.write("/* f */")
+    filedep = ht.HTMLDependency("filedep", "1.0", source={"subdir": src}, script={"src": "f.js"})
+    urldep = ht.HTMLDependency("urldep", "2.0", source={"href": "https://cdn.example/w"}, script=[{"src": "caf\u00e9 widget.js"}, {"src": "\u4e2d.js"}], stylesheet={"href": "\u00fc.css"})
     items = {
+        "non_ascii_file_names_in_urls": lambda: ht.HTMLDocument(ht.div("x", urldep)),
         "ascii_tag": lambda: ht.div("plain ascii", ht.span("x"), title="t"),
         "latin1_tag": lambda: ht.div("caf\u00e9 \u00fc\u00df", title="\u00e9"),
         "bmp_list": lambda: ht.TagList(ht.p("\u4e2d\u6587 \u0416 \u2028 \u00a0"), "e\u0301"),
         "astral_document": lambda: ht.HTMLDocument(ht.div("\U0001f600 \U0010ffff", dep, ht.head_content(ht.tags.title("t\u00eftre"))), lang="fr"),
         "windows_1252_gap": lambda: ht.div("\u0081 \u0152 \u20ac"),
     }
+    try:
+        res["urls_of_non_ascii_file_names"] = {"sha": _d(repr(urldep.as_dict()) + str(urldep.as_html_tags())), "utf8": True, "returned_path": True}
+    except Exception as e:
+        res["urls_of_non_ascii_file_names"] = {"raised": type(e).__name__ + ": " + str(e)[:60]}
+    try:
+        f = os.path.join(d, "abs.html")
+        shutil.rmtree(absdir, ignore_errors=True)
+        ret = ht.HTMLDocument(ht.div("abs", filedep)).save_html(f, libdir=absdir)
+        with open(f, "rb") as fh:
+            data = fh.read()
+        res["absolute_libdir"] = {"sha": hashlib.sha256(data).hexdigest()[:20], "utf8": _is_utf8(data), "returned_path": ret == f and os.path.isfile(os.path.join(absdir, "filedep-1.0", "f.js"))}
+    except Exception as e:
+        res["absolute_libdir"] = {"raised": type(e).__name__ + ": " + str(e)[:60]}
+    finally:
+        shutil.rmtree(absdir, ignore_errors=True)
     try:
         for k, mk in items.items():
             f = os.path.join(d, k + ".html")
@@ -357,13 +381,20 @@ ENVIRONMENTS = [
     ("POSIX locale, no coercion, latin-1 stdio", {"LC_ALL": "POSIX", "LANG": "POSIX", "PYTHONCOERCECLOCALE": "0", "PYTHONUTF8": "0", "PYTHONIOENCODING": "latin-1"}),
     ("UTF-8 mode forced", {"LC_ALL": "C", "PYTHONUTF8": "1"}),
     ("C locale, coerced", {"LC_ALL": "C", "LANG": "C"}),
+    ("utf-8 locale, working directory /", {"LC_ALL": "C.UTF-8", "HV_CWD": "/"}),
+    ("utf-8 locale, working directory = the temporary directory", {"LC_ALL": "C.UTF-8", "HV_CWD": "TMP"}),
 ]
 
 
 def spawn_saved(extra_env, timeout=600):
     env = {k: v for k, v in os.environ.items() if k not in ("LC_ALL", "LANG", "LC_CTYPE", "PYTHONUTF8", "PYTHONCOERCECLOCALE", "PYTHONIOENCODING")}
     env.update(extra_env, PYTHONHASHSEED="0", PYTHONDONTWRITEBYTECODE="1")
-    p = subprocess.run([sys.executable] + (["-O"] if sys.flags.optimize else []) + ["-m", "hv.checks.c18", "child", "saved"], cwd=VERIF, env=env, capture_output=True, text=True, timeout=timeout)
+    cwd_ = VERIF
+    if env.get("HV_CWD"):
+        import tempfile as _tf
+        cwd_ = _tf.gettempdir() if env["HV_CWD"] == "TMP" else env["HV_CWD"]
+        env["PYTHONPATH"] = VERIF + (os.pathsep + env["PYTHONPATH"] if env.get("PYTHONPATH") else "")
+    p = subprocess.run([sys.executable] + (["-O"] if sys.flags.optimize else []) + ["-m", "hv.checks.c18", "child", "saved"], cwd=cwd_, env=env, capture_output=True, text=True, timeout=timeout)
     if p.returncode != 0:
         raise RuntimeError("child failed (%r): %s" % (extra_env, p.stderr[-1500:]))
     return json.loads(p.stdout)
